@@ -4,6 +4,8 @@
 
 package reftable
 
+import "os"
+
 func vAssume(cond bool) {}
 
 func vAssert(cond bool, label string) {}
@@ -15,4 +17,22 @@ func lemmaRootMin(pq *mergedIterPQueue, i int) {
 		return
 	}
 	lemmaRootMin(pq, (i-1)/2)
+}
+
+// Step lemmas of the directory protocol (C05, C06): every filesystem action that meets its guard keeps the invariant
+// I1 "every table named by tables.list is in place, names are distinct and not retired". Together with the guard
+// obligations at every call site of os.Remove and os.Rename in stack.go they give I1 at every point between two
+// filesystem actions of this handle - which is also every point at which the process can crash. The bodies are the
+// actions themselves; the contracts are in verif_contracts.go.
+
+func lemmaRemoveKeepsI1(name string) {
+	os.Remove(name)
+}
+
+func lemmaTableRenameKeepsI1(oldpath, newpath string) {
+	os.Rename(oldpath, newpath)
+}
+
+func lemmaCommitKeepsI1(lock, list string, a, b, k int) {
+	os.Rename(lock, list)
 }
